@@ -82,6 +82,26 @@ def stream(rng):
     return hdr, pkts, hdr + body
 
 
+LONG_PROGRAMS = [
+    # filters with locals over a long stream: every filter run must give its stack slots back
+    "let cnt = 0;\nlet total = 0;\n@ true { let a1 = NP; let a2 = PL; let a3 = a1 + a2; total = total + a3; }\n@ NP % 500 == 0\n@ end { eprintln(\"end {} {}\", NP, total); }\n",
+    "let cnt = 0;\n@ PL >= 0 { let a = 1; let b = 2; let c = 3; let d = a + b + c; cnt = cnt + d; }\n@ NP > 1498\n@ end { eprintln(\"end {} {}\", NP, cnt); }\n",
+    "let cnt = 0;\n@ NP % 2 == 0 { cnt = cnt + 1; }\n@ NP % 700 == 1\n@ end { eprintln(\"end {} {}\", NP, cnt); }\n",
+]
+
+
+def long_stream(rng, n):
+    hdr = struct.pack("<IHHiIII", MAGIC_US, 2, 4, 0, 0, 65535, 1)
+    pkts, body = [], b""
+    for i in range(n):
+        cap = rng.choice([0, 4, 14])
+        payload = (struct.pack(">I", i + 1) * 4)[:cap]
+        rec = struct.pack("<IIII", 1_600_000_000 + i, i % 1000000, cap, cap) + payload
+        pkts.append((1_600_000_000 + i, i % 1000000, cap, cap, rec))
+        body += rec
+    return hdr, pkts, hdr + body
+
+
 def cases(ctx):
     rng = ctx.rng
     items = []
@@ -90,6 +110,9 @@ def cases(ctx):
         src = program(rng, len(pkts))
         skip = rng.random() < 0.35
         items.append((src, hdr, pkts, data, skip))
+    for k, src in enumerate(LONG_PROGRAMS):
+        hdr, pkts, data = long_stream(rng, 1500)
+        items.append((src, hdr, pkts, data, k % 2 == 0))
     asts = {}
     if ctx.harness:
         outs = run_parallel(ctx.harness, ["parse " + hx(s) for s, *_ in items], timeout=60)
